@@ -144,7 +144,7 @@ def hyp_run(fn, strategy, n, seed):
     t()
 
 
-def _make_big_frame(nlocals=136000):
+def _make_big_frame(nlocals=66000):
     """A trampoline whose frame has `nlocals` (never assigned) local variables."""
     names = ', '.join('v%d' % i for i in range(nlocals))
     src = 'def big_frame(fn, args):\n    if 0:\n        %s = None\n    return fn(*args)\n' % \
@@ -166,7 +166,7 @@ def deep_call(fn, *args):
     per program (measured: 50 000 munmap calls for 4 generated programs, more system
     than user time, munmap being slow in this sandbox).  A frame that is itself larger
     than a chunk makes CPython allocate one big chunk (next power of two), and every
-    nested frame then lives in its free tail (~0.9 MB): no further mapping until a few
+    nested frame then lives in its free tail (~0.5 MB): no further mapping until a few
     thousand frames deep.  Nothing about the code under test changes.  VERIF_NO_BIGFRAME=1 calls
     directly."""
     if os.environ.get('VERIF_NO_BIGFRAME') or _DEPTH[0]:
